@@ -68,6 +68,7 @@ func checkC04(ctx *Ctx, r *Report) {
 	c20StrictHelper(ctx, r)
 	c04CueDepthBounded(ctx, r, g)
 	c04FourthHunt(ctx, r)
+	c04FifthHunt(ctx, r)
 	c06ListAliasExpandedOnce(ctx, r)
 }
 
@@ -2762,4 +2763,93 @@ func c04FiniteValueDescent(info *types.Info, decl *ast.FuncDecl, parents map[ast
 		}
 	}
 	return ""
+}
+
+// c04FifthHunt — fifth hunt of C04:
+//   - parameters refer to each other and every key is substituted into the result of the previous ones: the growth of
+//     an interpolated setting is bounded (a size test with an error exit before the substitution);
+//   - (finding) the `if` of an input is compiled with every builtin of the expression language and evaluated without a
+//     step, time or context bound.
+func c04FifthHunt(ctx *Ctx, r *Report) {
+	n := 0
+	if fn := ctx.LookupMethod("internal/codegen", "Pipeline", "interpolate"); fn == nil {
+		r.Undecided("anchor lost: codegen.Pipeline.interpolate")
+	} else if fd, p := ctx.DeclOf(fn); fd != nil {
+		info := p.TypesInfo
+		bounded := false
+		ast.Inspect(fd.Body, func(m ast.Node) bool {
+			rs, ok := m.(*ast.RangeStmt)
+			if !ok {
+				return true
+			}
+			replaces := false
+			var guard *ast.IfStmt
+			for _, st := range rs.Body.List {
+				if is, ok := st.(*ast.IfStmt); ok && endsInExit(is.Body) && guard == nil && !replaces {
+					// a comparison with a constant bound
+					cmp := false
+					ast.Inspect(is.Cond, func(q ast.Node) bool {
+						if be, ok := q.(*ast.BinaryExpr); ok && (be.Op == token.GTR || be.Op == token.GEQ) {
+							if tv, ok := info.Types[be.Y]; ok && tv.Value != nil {
+								cmp = true
+							}
+						}
+						return true
+					})
+					if cmp {
+						guard = is
+					}
+				}
+				ast.Inspect(st, func(q ast.Node) bool {
+					if c, ok := q.(*ast.CallExpr); ok {
+						if f := callee(info, c); f != nil && f.Name() == "ReplaceAll" {
+							replaces = true
+						}
+					}
+					return true
+				})
+			}
+			if replaces && guard != nil {
+				bounded = true
+			}
+			return true
+		})
+		n++
+		r.Check(bounded, "flow/interpolation-bounded", "codegen.Pipeline.interpolate substitutes the parameters into a setting", fd.Pos(), "a size test with an exit comes before each substitution",
+			"every parameter is substituted into the result of the previous ones without a bound: `p00: \"%p01%%p01%\"` … `p39: \"%p40%%p40%\"`, `p40: x` and `output.directory: out/%p00%` double the text forty times — a 975-byte pipeline file ends in `fatal error: out of memory`, which is no error return")
+	}
+	if fn := ctx.LookupMethod("internal/codegen", "Input", "shouldLoadSchemas"); fn == nil {
+		r.Undecided("anchor lost: codegen.Input.shouldLoadSchemas")
+	} else if fd, p := ctx.DeclOf(fn); fd != nil {
+		info := p.TypesInfo
+		restricted := false
+		ast.Inspect(fd.Body, func(m ast.Node) bool {
+			c, ok := m.(*ast.CallExpr)
+			if !ok {
+				return true
+			}
+			f := callee(info, c)
+			if f == nil || f.Pkg() == nil || !strings.Contains(f.Pkg().Path(), "expr-lang/expr") {
+				return true
+			}
+			switch f.Name() {
+			case "DisableBuiltin", "DisableAllBuiltins", "WithContext", "MaxNodes":
+				restricted = true
+			}
+			return true
+		})
+		usesContext := false
+		if fd.Type.Params != nil {
+			for _, f := range fd.Type.Params.List {
+				if strings.HasSuffix(exprString(f.Type), "context.Context") {
+					usesContext = true
+				}
+			}
+		}
+		n++
+		r.Check(restricted || usesContext, "flow/input-condition-bounded", "codegen.Input.shouldLoadSchemas evaluates the condition of an input", fd.Pos(), "with the iterating builtins disabled, or against a context / deadline",
+			"the `if` of an input is compiled with every builtin of the expression language and run without a step, time or context bound: `if: \"let xs = split(sprintf('%900000d', 1), ''); all(xs, {all(xs, {all(xs, {# != 'x'})})})\"` — a 242-byte pipeline — takes about 7·10^17 evaluator steps; Pipeline.Run ignores its cancelled context and never returns")
+	}
+	r.Count("hunted clauses of the termination rules (5th hunt)", n)
+	r.Floor("hunted clauses of the termination rules (5th hunt)", 2)
 }
